@@ -155,7 +155,8 @@ class Controller:
         self.c11_stop_bad = []
         _Mot.ledger = self.mot_calls.append
         self.n_susp = 0
-        self.suspend_plans = any(str(lab).startswith("pre") for lab, _ in self.decisions)
+        # (the scenario's option when the check passes it on; a counter-example may end before the first decision of a pre-plan)
+        self.suspend_plans = any(str(lab).startswith("pre") for lab, _ in self.decisions) or str((opts or {}).get("suspend_plans", "False")) == "True"
 
     NONREPLAYABLE = ("pause", "subscribe", "unsubscribe", "stage", "unstage", "monitor", "unmonitor", "open_run", "close_run",
                      "install_suspender", "remove_suspender", "_start_suspender")
@@ -202,10 +203,15 @@ class Controller:
             self.after_start_suspender = True
             # which condition this suspension waits for (the bound `wait` of one of the events handed to request_suspend)
             cond = getattr(msg.args[3], "__self__", None) if len(msg.args) > 3 else None
-            post = msg.args[1] if len(msg.args) > 1 else None
+            # the post-plan is the one REQUESTED together with this condition (roles as given to request_suspend, not as the message carries them)
+            cands = [q for q in getattr(self, "susp_requests", []) if not q["started"] and q["cond"] is cond]
+            mine = [q for q in cands if any(id(a) in (id(q["pre"]), id(q["post"])) for a in msg.args[:2])]
+            q = (mine or cands or [None])[0]
+            if q is not None:
+                q["started"] = True
             for k, r in enumerate(self.releases):
                 if r is cond:
-                    self.trace.append(("in-effect", k, self.aux_names.get(id(post))))
+                    self.trace.append(("in-effect", k, q["postname"] if q is not None else None))
         self.c04_update(msg)
         replayed = id(msg) in self.seen_msgs
         self.seen_msgs.add(id(msg))
@@ -358,8 +364,10 @@ class Controller:
                 pre, post = self.aux_plan(f"pre{n}"), self.aux_plan(f"post{n}")
                 self.aux_names[id(post)] = f"post{n}"
                 self.keep_aux_plans = getattr(self, "keep_aux_plans", []) + [pre, post]
+                self.susp_requests = getattr(self, "susp_requests", []) + [{"cond": rel, "pre": pre, "post": post, "postname": f"post{n}", "started": False}]
                 in_thread(lambda: RE.request_suspend(rel.wait, pre_plan=pre, post_plan=post, justification="beam dump"))
             else:
+                self.susp_requests = getattr(self, "susp_requests", []) + [{"cond": rel, "pre": None, "post": None, "postname": None, "started": False}]
                 in_thread(lambda: RE.request_suspend(rel.wait))
         elif kind == "abort":
             in_thread(lambda: RE.abort("because"))
@@ -626,6 +634,8 @@ def run_native(decisions, msgs, opts=None):
         RE.subscribe(lambda name, doc: docs.append((name, dict(doc), ctl.trace[-1][:2] == ("msg", "close_run") if ctl.trace else False)))
         RE.msg_hook = ctl.on_msg
         RE.state_hook = ctl.on_state
+        if "'record_interruptions': True" in str((opts or {}).get("re_attrs", "")):
+            RE.record_interruptions = True       # scenario option re_attrs (public configuration attribute)
         ctl.RE = RE
         return RE
     ctl.submit(construct)
@@ -680,6 +690,7 @@ def run_native(decisions, msgs, opts=None):
     out["suspend_plans"] = ctl.suspend_plans
     out["tokens_at_second_start"] = getattr(ctl, "tokens_at_second_start", None) or 1
     out["c11_stop_bad"] = ctl.c11_stop_bad
+    out["record_interruptions"] = bool(getattr(RE, "record_interruptions", False))
     out["log"] = ctl.log
     out["plan_exc"] = getattr(ctl, "plan_exc", None)
     out["loop_errors"] = [str(c.get("exception")) for c in ctl.loop.errors]
@@ -872,6 +883,20 @@ def _violations(obligation, res):
                         phase, records = None, []
         if tag.startswith("ensures[at suspension every device that was moved"):
             bad.extend(res.get("c11_stop_bad", []))
+        if tag.startswith("ensures[the interruption is recorded in every open run"):
+            # the 'interruptions' stream of the documents: one event with the suspender's justification per suspension that started inside an open run
+            want = "beam dump" if res.get("suspend_plans") else "suspended"
+            contents = [d[1]["data"]["interruption"] for d in res["docs"] if d[0] == "event" and "interruption" in (d[1].get("data") or {})]
+            run_open, started_in_run = False, 0
+            for x in tr:
+                if x[0] == "msg" and x[1] == "open_run":
+                    run_open = True
+                elif x[0] == "msg" and x[1] == "close_run":
+                    run_open = False
+                elif x[0] == "msg" and x[1] == "_start_suspender" and run_open:
+                    started_in_run += 1
+            if res.get("record_interruptions") and started_in_run and contents.count(want) < started_in_run:
+                bad.append(f"{started_in_run} suspension(s) started inside an open run with justification {want!r}; the interruptions recorded are {contents}")
     elif tag.startswith("ensures[at idle every"):
         for c in res["calls"]:
             if c["state"] != "idle" or "ledger" not in c:
